@@ -391,9 +391,90 @@ pub fn run(ctx: &'static Ctx) {
         }
     }
     ctx.engine("E1.sdt", json!(runs));
+
+    // ---- E3: large tables, real object and vector model in lockstep, compared after every operation: every slice size
+    // 0..=1100 and around 4096 / 65536 in three byte patterns (all-ones, text, zeros) followed by small operations of every
+    // entry point; every initial length 36..=1100; growth byte by byte to 5000 bytes through each entry point
+    {
+        use rayon::prelude::*;
+        let lock = |name: String, len: u32, ops: Vec<SOp>, every: usize| -> u64 {
+            let r = catch(|| {
+                let mut t = new_sdt(len);
+                let mut m = Model::new(len);
+                let mut n = 0u64;
+                for (i, op) in ops.iter().enumerate() {
+                    let refused = catch(|| apply(&mut t, op)).is_err();
+                    let accepted = m.step(op);
+                    n += 1;
+                    let last = i + 1 == ops.len();
+                    if refused == accepted || ((i % every == 0 || last || ops.len() - i < 4) && (t.as_slice() != &m.0[..] || t.len() != m.0.len())) {
+                        let d = first_diff(t.as_slice(), &m.0).unwrap_or(0);
+                        let what = format!("Sdt({}) program {:?}: after operation #{} ({}) {} (len {} vs {}; first difference at {}; checksum byte {:#04x} vs {:#04x})", len, name, i + 1, kind(op), if refused == accepted { "refusal disagrees with the vector model" } else { "the table differs from the vector model" }, t.len(), m.0.len(), d, t.as_slice().get(9).copied().unwrap_or(0), m.0[9]);
+                        ctx.violation_sized(&format!("sdt:{}:large", kind(op)), (i + 1) as u64, || what, || json!({"family":"sdt-large","program":name,"len":len,"at":i + 1}));
+                        return n;
+                    }
+                }
+                n
+            });
+            match r {
+                Ok(n) => n,
+                Err(msg) => {
+                    ctx.violation(&"sdt:new:large".to_string(), || format!("Sdt({}) program {:?} panicked: {}", len, name, msg), || json!({"family":"sdt-large","program":name,"len":len}));
+                    0
+                }
+            }
+        };
+        let tail = || vec![SOp::AppendU8(0xa5), SOp::WriteU8(36, 0x11), SOp::SinkByte(0x5a), SOp::AppendSlice(vec![1, 2, 3]), SOp::WriteU32(4, 0), SOp::AppendU16(0xbeef), SOp::UpdateChecksum, SOp::SinkQword(0x0102_0304_0506_0708)];
+        let sizes: Vec<usize> = (0..=1100usize).chain([2047, 2048, 2049, 4095, 4096, 4097, 8192, 16_384, 32_768, 65_499, 65_500, 65_535, 65_536, 65_537, 70_000, 300_000]).collect();
+        let steps: u64 = sizes
+            .par_iter()
+            .map(|n| {
+                let mut c = 0;
+                for (pi, pat) in [0xffu8, 0x61, 0x00].iter().enumerate() {
+                    let data: Vec<u8> = (0..*n).map(|i| if *pat == 0x61 { b'a' + (i % 26) as u8 } else { *pat }).collect();
+                    for via in 0..3 {
+                        if via > 0 && *n > 5000 && pi > 0 {
+                            continue;
+                        }
+                        let first = match via {
+                            0 => SOp::AppendSlice(data.clone()),
+                            1 => SOp::SinkVec(data.clone()),
+                            _ => SOp::AppendSlice(data.clone()),
+                        };
+                        let mut ops = if via == 2 { vec![SOp::AppendU8(7), first] } else { vec![first] };
+                        ops.extend(tail());
+                        c += lock(format!("slice of {} x {:#04x} via {}", n, pat, ["append_slice", "sink vec", "append then append_slice"][via]), 36, ops, 1);
+                    }
+                }
+                c
+            })
+            .sum();
+        ctx.tr(steps);
+        let lens: Vec<u32> = (36..=1100u32).chain([4095, 4096, 65_535, 65_536, 70_000]).collect();
+        let steps2: u64 = lens.par_iter().map(|l| lock(format!("initial length {}", l), *l, tail(), 1)).sum();
+        ctx.tr(steps2);
+        let growers: Vec<(&str, Box<dyn Fn(usize) -> SOp + Send + Sync>)> = vec![
+            ("append u8", Box::new(|i| SOp::AppendU8((i * 31 + 7) as u8 | 0x80))),
+            ("sink byte", Box::new(|i| SOp::SinkByte(0xff - (i % 3) as u8))),
+            ("append u64", Box::new(|i| SOp::AppendU64(u64::MAX - i as u64))),
+            ("sink dword", Box::new(|i| SOp::SinkDword(0xffff_ff00 | i as u32))),
+            ("append_slice of 9", Box::new(|i| SOp::AppendSlice(vec![0xf0 | (i % 16) as u8; 9]))),
+            ("write then append", Box::new(|i| if i % 2 == 0 { SOp::WriteU8(36usize.min(35 + i), 0xee) } else { SOp::AppendU16(0xffff) })),
+        ];
+        let steps3: u64 = growers
+            .par_iter()
+            .map(|(name, g)| {
+                let count = if name.contains("u64") || name.contains("slice") { 1200 } else { 5000 };
+                lock(format!("growth by {} x {}", count, name), 36, (0..count).map(|i| g(i)).collect(), 1)
+            })
+            .sum();
+        ctx.tr(steps3);
+        ctx.st(steps + steps2 + steps3);
+        ctx.engine("E3.sdt-large", json!({"slice_sizes": "0..=1100, 2047..2049, 4095..4097, 8192, 16384, 32768, 65499..65537, 70000, 300000", "patterns": ["ff", "text", "00"], "initial_lengths": "36..=1100, 4095, 4096, 65535, 65536, 70000", "growth_programs": growers.len(), "operations_compared": steps + steps2 + steps3}));
+    }
     ctx.force_sample(json!({"len": 40, "ops": ["WriteU8(9, 0xc3)", "AppendU16(0xbeef)", "WriteU32(38, ..) -> in range", "WriteU32(39, ..) -> refused"]}));
     ctx.set("bound", json!(format!("full alphabet to depth {}, reduced-offset alphabet to depth {}", 2, d)));
 }
 
-pub const RULE: &str = "stateright DFS over all operation sequences (appends of every width, slices incl. empty, typed/slice writes at every offset incl. header, checksum byte, last valid, first invalid and usize::MAX, sink pushes) within the stated depth; each transition replays the history on a fresh real Sdt and compares as_slice/len/serialisation with a Vec<u8> model; state key = (image, depth). distinct = distinct (image, depth) pairs";
+pub const RULE: &str = "stateright DFS over all operation sequences (appends of every width, slices incl. empty, typed/slice writes at every offset incl. header, checksum byte, last valid, first invalid and usize::MAX, sink pushes) within the stated depth; plus lockstep programs on large tables (every slice size 0..1100 and around 4096/65536 in three byte patterns, every initial length 36..1100, byte-by-byte growth to 5000 bytes); each transition replays the history on a fresh real Sdt and compares as_slice/len/serialisation with a Vec<u8> model; state key = (image, depth). distinct = distinct (image, depth) pairs";
 pub const ASSUME: &[&str] = &["values are two per width; offsets are exhaustive only in the full-alphabet runs", "a write into the Length field is a plain write (the model does not restore it until the next append)"];
